@@ -37,6 +37,18 @@ def run(prop, tier, seed, workdir):
             raise tlc.TLCError("self-test: Smooth.tla does not reject the variant %s" % variant)
         if must_hold:
             sm_states = rs["distinct"]
+    # ... and the search loop of bsearch_s (BSearch.tla)
+    for variant, must_hold in (("code", True), ("upperhalf", False)):
+        bcfg = os.path.join(workdir, "bsearch_%s.cfg" % variant)
+        tlc.write_cfg(bcfg, spec="FairSpec" if must_hold else "Spec", constants=dict(MaxN=7 if tier == "quick" else 9, Keys={0, 1, 2, 3}, Variant=variant),
+                      invariants=["Result", "InArray"], properties=["Shrinks", "Terminates"] if must_hold else [])
+        rb = tlc.model_check("BSearch", bcfg, workdir, workers=8)
+        if must_hold and (rb["violated"] or not rb["ok"]):
+            raise tlc.TLCError("BSearch.tla: the transcribed loop violates %s\n%s" % (rb["violated"], rb["out"][-1500:]))
+        if not must_hold and not rb["violated"]:
+            raise tlc.TLCError("self-test: BSearch.tla does not reject the variant %s" % variant)
+        if must_hold:
+            sm_states += rb["distinct"]
     states = [s for s in tlc.parse_dump(r["dump_path"]) if s.get("op") in ("q", "b")]
     os.unlink(r["dump_path"])
     sizes = SIZES_Q if tier == "quick" else SIZES_T
@@ -126,9 +138,9 @@ def run(prop, tier, seed, workdir):
              "argument, no write outside nmemb*size. non-trivial = distinct patterns with nmemb >= 2; algorithm layer: Smooth.tla is qsort_s's smoothsort "
              "(sift, trinkle, cycle, the bit set of Leonardo heap orders) transcribed statement by statement for element width 1: TLC runs it on every array of "
              "up to %d keys from {0,1,2} and checks Sorted (ordered permutation), InHeapArea, Decreasing and - under weak fairness - Terminates; the two seeded "
-             "changes of the algorithm that the unit tests pass (stepson test skipped for order-2 heaps, wrong final-heap test) are shown to violate Sorted" % (maxn, sizes, nbig, sm_n),
+             "changes of the algorithm that the unit tests pass (stepson test skipped for order-2 heaps, wrong final-heap test) are shown to violate Sorted; BSearch.tla is the search loop of bsearch_s on every ordered array and key (Result, InArray, Shrinks, Terminates; a variant that keeps too little of the upper half is rejected)" % (maxn, sizes, nbig, sm_n),
         samples=[dict(op=meta[i][0], keys=meta[i][1][:16], size=meta[i][2]) for i in (1, len(meta) // 2, len(meta))], exhaustive=True,
-        checker_cmd="tlc Sort.tla (INVARIANTS Sound BSound); tlc Smooth.tla (FairSpec: Sorted InHeapArea Decreasing Terminates); tlc TraceSort.tla")
+        checker_cmd="tlc Sort.tla (INVARIANTS Sound BSound); tlc Smooth.tla (FairSpec: Sorted InHeapArea Decreasing Terminates); tlc BSearch.tla; tlc TraceSort.tla")
     res.assumptions = ["keys from a 3-value set exhaustively up to nmemb %d; larger arrays only by seeded sampling" % maxn,
                        "the comparator is total and consistent (the property quantifies over arrays and sizes, not over ill-behaved comparators)"]
     return res
